@@ -1868,7 +1868,8 @@ impl StorageEngine {
                         Some(current_bytes) => {
                             let current_str = String::from_utf8_lossy(current_bytes);
                             match current_str.parse::<i64>() {
-                                Ok(current) => current + increment,
+                                Ok(current) => current.checked_add(increment)
+                                    .ok_or(FerrousError::Command(CommandError::IntegerOverflow))?,
                                 Err(_) => return Err(FerrousError::Command(CommandError::NotInteger)),
                             }
                         }
